@@ -756,7 +756,14 @@ fn parent_main(def: &CheckDef, prop: &str, tier: Tier, bins: &[(String, String)]
     }
 
     // Classify violations against the committed known-findings list.
-    let known = load_known(&root.join("known_findings.txt"));
+    let mut known = load_known(&root.join("known_findings.txt"));
+    if let Ok(rd) = std::fs::read_dir(root.join("known_findings.d")) {
+        let mut ps: Vec<_> = rd.filter_map(|e| e.ok()).map(|e| e.path()).collect();
+        ps.sort();
+        for p in ps {
+            known.extend(load_known(&p));
+        }
+    }
     let mut uniq: BTreeMap<String, Violation> = BTreeMap::new();
     for v in tot.violations.drain(..) {
         uniq.entry(v.key()).or_insert(v);
